@@ -211,3 +211,5 @@ PROP = Prop(
                quick_shards=3, min_nontrivial=200, doc="Bernoulli counts, correlated pair validity"),
     ],
 )
+
+RULE_EXTRA = ('p within 1e-4..1e-11 of a multiple of 1/n; floor tolerance max(1e-13, 4e-16 q).')
